@@ -63,6 +63,9 @@ func (FixedWindow) New(cfg Config) fiber.Handler {
 		// Increment hits
 		e.currHits++
 
+		// The window this request is counted in, identified by its end
+		countedExp := e.exp
+
 		// Calculate when it resets in seconds
 		resetInSec := e.exp - ts
 
@@ -104,8 +107,9 @@ func (FixedWindow) New(cfg Config) fiber.Handler {
 				mux.Unlock()
 				return getErr
 			}
-			// the entry may have expired while the handler ran: never count below zero
-			if e.currHits > 0 {
+			// Un-count the request only while the window it was counted in is still the current one:
+			// after a roll-over (or an expired entry) the hits belong to requests of a later window.
+			if e.exp == countedExp && e.currHits > 0 {
 				e.currHits--
 			}
 			remaining++
